@@ -12,7 +12,7 @@ import json
 import os
 import re
 
-from .. import core, tlcrun, par, impl
+from .. import core, tlcrun, par, impl, messages
 
 INVS = ['TypeOK', 'NoLossNoDup', 'EofTruthful', 'AllBounded', 'WarningsOfPrefix', 'HeaderStable']
 POLICIES = ['simple', 'quoted', 'quoted_rfc']
@@ -96,7 +96,7 @@ def _replay_chunk(items):
                 elif op == 'hdr':
                     got = it.get_header()
                 elif op == 'warn':
-                    got = [[int(x) for x in re.findall(r'\d+', w)] for w in it.get_warnings()]
+                    got = [list(c[1]) if c[0] == 'ragged' else [c[0]] for c in (messages.classify_warning(w) for w in it.get_warnings())]
                 else:
                     it.handle_query_modifier('header' if call['arg'] == 1 else 'noheader')
                     got = None
